@@ -138,6 +138,7 @@ TABLE.update({
     "c02_select_reads_each.diff": ("contracts.c02", "lower_bundle_select", None),
     "c02_wildcard_ranges_over_scalar.diff": ("contracts.c02", "IRBuilder.decider", None),
     "c16_unknown_bound_defaults_to_zero.diff": ("contracts.c14b", "_resolve_for_loop_constant", None),
+    "c01_const_row_le_as_lt.diff": ("contracts.c07", "_constant_comparison_row", "comparator <="),
     "c08_preserved_shares_network_zero.diff": ("contracts.c12", "_restore_preserved_connection", None),
     "c08_preserved_routing_failure_ignored.diff": ("contracts.c12", "_restore_preserved_connection", None),
     "c08_preserved_span_doubled.diff": ("contracts.c12", "_restore_preserved_connection", None),
